@@ -130,7 +130,11 @@ class NVSubroutineTranspiler(SubroutineTranspiler):
         """
         new_commands: List[NetQASMInstruction] = []
 
-        index_changes = {}  # map index in commands to index in new_commands
+        # map index in commands to index in new_commands. Debug pseudo-instructions
+        # are not counted: they serialize to nothing, so they do not occupy a line
+        # in the subroutine that is executed.
+        index_changes = {}
+        num_real_commands = 0
 
         for i, instr in enumerate(self._subroutine.instructions):
             # check which registers are being written to
@@ -157,16 +161,21 @@ class NVSubroutineTranspiler(SubroutineTranspiler):
                 if isinstance(op, Register):
                     self._used_registers.update([op])
 
-            index_changes[i] = len(new_commands)
+            index_changes[i] = num_real_commands
 
+            expansion: List[NetQASMInstruction]
             if isinstance(instr, core.SingleQubitInstruction) or isinstance(
                 instr, core.RotationInstruction
             ):
-                new_commands += self._handle_single_qubit_gate(instr)
+                expansion = self._handle_single_qubit_gate(instr)
             elif isinstance(instr, core.TwoQubitInstruction):
-                new_commands += self._handle_two_qubit_gate(instr)
+                expansion = self._handle_two_qubit_gate(instr)
             else:
-                new_commands += [instr]
+                expansion = [instr]
+            new_commands += expansion
+            num_real_commands += sum(
+                1 for cmd in expansion if not isinstance(cmd, DebugInstruction)
+            )
 
         add_no_op_at_end = False
 
@@ -182,7 +191,7 @@ class NVSubroutineTranspiler(SubroutineTranspiler):
                     # Since this label is now removed, we should put a "no-op"
                     # instruction there so there is something to jump to.
                     add_no_op_at_end = True
-                    instr.line = Immediate(len(new_commands))
+                    instr.line = Immediate(num_real_commands)
                 else:
                     instr.line = Immediate(index_changes[instr.line.value])
 
